@@ -7,6 +7,7 @@ import FP.Model.Calendar
 import FP.Gen.Layouts
 import FP.Model.LayoutPrec
 import FP.Lemmas.Calendar
+import FP.Model.Eval
 namespace FP.Props.C09
 open FP FP.Model FP.Model.Text FP.Model.Calendar FP.Lemmas.Calendar
 
@@ -212,6 +213,65 @@ example : (addMonthsClamp ⟨2020, 1, 31, 0, 0, 0, 0, 0⟩ 1).day = 29 ∧ (addM
 example : ValidDate ⟨2024, 2, 29, 0, 0, 0, 0, 0⟩ := by unfold ValidDate; decide
 
 /-! ### the precision tables of layouts.go -/
+
+/-! ### date / time arithmetic on whole expressions (the assembled evaluator, FP.Model.Eval) -/
+
+section Expr
+open FP.Model.Eval FP.Model.Temporal
+
+/-- whatever the operand expressions are: when the left one evaluates to a single Date / DateTime /
+    Time and the right one to a single Quantity, `+` and `-` ARE the calendar shift of this file's
+    model (with a mismatched unit an error, never a guessed value) -/
+theorem expr_temporal_shift (env : Env) (l r : E) (input : List Val) (x : Val) (v : Dec) (u : List UInt8)
+    (hx : isTemporal x = true) (hl : eval env l input = .ok [x]) (hr : eval env r input = .ok [.quantity v u]) :
+    eval env (.arith .add l r) input = mapArithErr (shiftVal 1 x v u) ∧
+    eval env (.arith .sub l r) input = mapArithErr (shiftVal (-1) x v u) := by
+  simp [eval, hl, hr, Res.bind, arithEv, hx]
+
+theorem bind_ok_inv {α β : Type} {r : Res α} {f : α → β} {y : β} (h : (r.bind fun w => .ok (f w)) = .ok y) :
+    ∃ w, r = .ok w ∧ y = f w := by
+  cases r <;> simp [Res.bind] at h
+  exact ⟨_, rfl, h.symm⟩
+
+/-- the result has the operand's type and layout (its precision), and a DateTime keeps its offset -/
+theorem shift_keeps_type_precision_zone (sg : Int) (x y : Val) (v : Dec) (u : List UInt8)
+    (h : shiftVal sg x v u = .ok y) :
+    (∀ a, x = .date a → ∃ b, y = .date b ∧ b.layout = a.layout) ∧
+    (∀ a, x = .dateTime a → ∃ b, y = .dateTime b ∧ b.layout = a.layout ∧ b.off = a.off) ∧
+    (∀ a, x = .time a → ∃ b, y = .time b ∧ b.layout = a.layout) := by
+  unfold shiftVal at h
+  split at h
+  · simp at h
+  · split at h
+    · split at h
+      · simp at h
+      · obtain ⟨w, _, rfl⟩ := bind_ok_inv h
+        simp [tmpOfDate]
+    · split at h
+      · simp at h
+      · obtain ⟨w, hw, rfl⟩ := bind_ok_inv h
+        refine ⟨by simp, ?_, by simp⟩
+        intro a ha; cases ha
+        refine ⟨_, rfl, by simp [tmpOfDateTime], ?_⟩
+        unfold shiftDateTime at hw
+        split at hw
+        · simp at hw
+        · simp only [Res.ok.injEq] at hw
+          subst hw
+          simp [tmpOfDateTime, offset_preserved, wallOfDateTime, inZone]
+    · split at h
+      · simp at h
+      · obtain ⟨w, _, rfl⟩ := bind_ok_inv h
+        simp [tmpOfTime]
+    · simp at h
+
+/-- non-vacuity, and the clamping example of the property on the whole pipeline: the source text
+    `@2020-01-31 + 1 month` compiles and evaluates to the Date 2020-02-29 -/
+example : (run FP.Gen.FuncTable.baseTable "@2020-01-31 + 1 month" [] []) =
+    .result [.date ⟨[2020, 2, 29], [2020, 2, 29, 0, 0, 0], "2006-01-02", 0⟩] := by decide +kernel
+
+end Expr
+
 
 open FP.Gen.Layouts in
 /-- PRECISION IS THE LAYOUT'S: every entry of the regenerated `dateMap`, `dateTimeMap` and `timeMap`
